@@ -28,7 +28,7 @@ from ser import Ser, Ids, Unsupported, rat, env_text
 from props import c11 as R
 
 LEAN_MODULE = "Optyx.Props.C10"
-EXTRA_MODULES = ["Optyx.Props.PinsC10", "Optyx.Props.ConstraintTie"]   # transcription anchors (harness/source_pins.py)
+EXTRA_MODULES = ["Optyx.Props.PinsC10", "Optyx.Props.ConstraintTie", "Optyx.Props.OperatorsTie"]   # transcription anchors (harness/source_pins.py)
 THEOREMS = [
     "Optyx.Props.C10.mkConstraint_denote",
     "Optyx.Props.C10.mkConstraint_error_iff",
@@ -53,6 +53,9 @@ THEOREMS = [
     "Optyx.Props.ConstraintTie.isSatisfied_eq",
     "Optyx.Props.ConstraintTie.isSatisfied_default",
     "Optyx.Props.ConstraintTie.evaluate_text",
+    "Optyx.Props.OperatorsTie.operators_spec",
+    "Optyx.Props.OperatorsTie.comparisons_spec",
+    "Optyx.Props.OperatorsTie.ensureExpr_text",
     "Optyx.Props.PinsC10.anchors",
 ]
 ASSUMPTIONS = [
